@@ -241,7 +241,8 @@ class DerivedLevel(Level):
             levels = sample[f]
             for j in range(window.width):
                 idx = i+(j-(window.width-1))*sustain_count
-                if idx >= 0:
+                # A derived source factor has no level before its own start
+                if idx >= 0 and levels[idx] is not None:
                     args.append(levels[idx].name)
                 else:
                     args.append(None)
